@@ -41,7 +41,7 @@ def generate(tier, seed, info):
             er[0] = 104
             er[1] = arg
             ln = rnd.choice([0, 1, 2, 3, 5, 16, 17, 100, 255, 256, 1000, 4096, rnd.randrange(0, 300), rnd.randrange(0, 4097)])
-            buf = rnd.choice([0xffe000 - ln, 0x460000, 0x5ffef0 - ln, 0xffc800]) if ln < 3000 else rnd.choice([0x460000, 0x500000 - ln])
+            buf = rnd.choice([0xffe000 - ln, 0x460000, 0x5ffef0 - ln, 0xffc800, 0x600000 - ln, 0xffff20 - ln]) if ln < 3000 else rnd.choice([0x460000, 0x500000 - ln, 0x600000 - ln])   # also buffers ending on the last byte of DRAM / on-chip RAM
             if not (buf + ln <= arg or arg + 12 <= buf):
                 buf = 0x470000
             data = text(rnd, ln)
